@@ -8,7 +8,7 @@ import types
 
 import z3
 
-from .core import (INT, BV8, ForeignError, Infeasible, Opaque, PyRaise, SBool, SBytes, SInt, SRange, SReal, SText,
+from .core import (INT, BV8, ForeignError, Infeasible, Opaque, PyRaise, SBool, SBytes, SInt, SNumText, SRange, SReal, SText,
                    Sym, Undecided, is_sym, zbool, zint, zreal)
 
 NOT_HANDLED = object()
@@ -100,7 +100,7 @@ def pytype(v):
         return float
     if isinstance(v, SBytes):
         return bytearray if v.mutable else bytes
-    if isinstance(v, SText):
+    if isinstance(v, (SText, SNumText)):
         return str
     if isinstance(v, Opaque):
         return str
@@ -1253,6 +1253,10 @@ def symmethod(I, o, name, args, kwargs):
             return simp_bool(z3.And(o.ln >= n, *[o.at(z3.IntVal(k)) == pre.at(z3.IntVal(k)) for k in range(n)]))
         if name == "find":
             raise Undecided("bytes.find on symbolic bytes")
+    if isinstance(o, SNumText):
+        if name == "strip":
+            return o
+        return Opaque(name)
     if isinstance(o, SText):
         if name == "encode":
             if I.api is None:
